@@ -16,7 +16,7 @@ def run(ctx):
                 "non-trivial = N>=2 on every axis")
     ctx.prove("C08")
     from suites import symsuite
-    run_suites(ctx, ["symbolic"], runner=symsuite.run_suite, relevant=symsuite.relevant_for(['diffusion', 'central', 'upwind']))
+    run_suites(ctx, ["symbolic"], runner=symsuite.run_suite, relevant=symsuite.relevant_for(['diffusion', 'central', 'upwind', 'tvd', 'tvdfsarg']))
     run_suites(ctx, ["diffusion", "conv_central", "conv_upwind", "tvd", "divergence", "gradient", "means"], relevant=REL)
     run_suites(ctx, ["bc_ghost", "bc_rows"], runner=bcsuite.run_suite)
     run_suites(ctx, ["solve"], runner=solvesuite.run_suite)
